@@ -280,11 +280,8 @@ pub fn gen_cases(seed: u64, n: usize, max_len: i32, max_depth: usize, start_id: 
                 // (theme 1: a block-alternate strictly inside another one's region is allowed: the outer removal wins)
                 let nested_alt = theme == 1 && m.contains("block_alt") && reg.map(|(a, _)| s > a).unwrap_or(false);
                 let inside_new = reg.map(|(a, b)| s >= a && s <= b + 1).unwrap_or(false) && !nested_alt;
-                let same_site_conflict = s == i
-                    && ((m == "alternate" && mode == "empty_alternate")
-                        || (m == "empty_alternate" && mode == "alternate")
-                        || (m == "empty_alternate" && mode == "empty_alternate"));
-                inside_new || same_site_conflict
+                // (a replacement and a removal of one instruction may both be requested: the last request decides)
+                inside_new
             }) || regions.iter().any(|(a, b)| i >= *a && i <= *b + 1 && !(theme == 1 && is_alt_region && i > *a));
             if clash {
                 continue;
